@@ -540,9 +540,23 @@ def inverse(repo, rule):
     where = "%s:%s" % (g.relpath, fb.lineno)
     if good and zero:
         rule.ok(where, "pysnark.gmpy:invert", norm(good[0]), "Fermat inverse x^(m-2) mod m (m prime by R-C13-3), zero result raises")
-    else:
-        rule.violation(where, "pysnark.gmpy:invert", norm(fb.body)[:200],
-                       "fallback inverse is not pow(x, m-2, m) with a zero-result check", "gmpy/invert")
+        return
+    loops = [n for n in ast.walk(fb) if isinstance(n, ast.While)]
+    if loops:
+        # extended-Euclid shape: correct only when it starts from the residue of x (non-negative, < m)
+        seeds = [norm(a.value) for a in ast.walk(fb) if isinstance(a, ast.Assign) and not any(a in list(ast.walk(l)) for l in loops)]
+        reduced = any(("%s %% %s" % (x_, m_)) in t for t in seeds) or any(
+            isinstance(a, ast.AugAssign) and isinstance(a.op, ast.Mod) and norm(a.target) == x_ for a in ast.walk(fb))
+        if reduced:
+            rule.undecided(where, "pysnark.gmpy:invert", "Euclid-style loop starting from %s %% %s" % (x_, m_),
+                           "loop-based inverse: correctness of the loop itself is not decided statically")
+        else:
+            rule.violation(where, "pysnark.gmpy:invert", "Euclid-style loop starting from the raw argument: %s" % "; ".join(seeds)[:120],
+                           "the fallback inverse runs the Euclidean loop on the unreduced argument: for negative (or >= m) arguments "
+                           "the result is not the inverse modulo m", "gmpy/invert-unreduced")
+        return
+    rule.violation(where, "pysnark.gmpy:invert", norm(fb.body)[:200],
+                   "fallback inverse is neither pow(x, m-2, m) with a zero-result check nor a recognised alternative", "gmpy/invert")
 
 
 def check(repo, rep, tier):
